@@ -18,6 +18,7 @@ from pest.grammar.rule import ATOMIC
 from pest.grammar.rule import COMPOUND
 from pest.grammar.rule import SILENT
 from pest.grammar.rule import SILENT_ATOMIC
+from pest.grammar.rule import SkipRule
 
 from .expression import Expression
 from .optimizers.inliners import inline_builtin
@@ -127,6 +128,10 @@ class Optimizer:
         """Combine WHITESPACE and COMMENT into a single SKIP rule."""
         # NOTE: COMMENT and WHITESPACE are hard coded to always be atomic.
 
+        if "SKIP" in rules:
+            # The grammar has a rule of that name, or it is optimized already.
+            return
+
         comment = rules.get("COMMENT")
         whitespace = rules.get("WHITESPACE")
 
@@ -135,7 +140,9 @@ class Optimizer:
             return
 
         if comment and comment.modifier & SILENT:
-            rules["SKIP"] = Rule("SKIP", Repeat(comment.expression), SILENT_ATOMIC)
+            rules["SKIP"] = SkipRule(
+                "SKIP", Repeat(comment.expression), SILENT_ATOMIC
+            )
 
         elif (
             whitespace
@@ -144,7 +151,7 @@ class Optimizer:
         ):
             expr = squash(whitespace.expression.expressions, OptimizedChoiceRepeat())
             if expr:
-                rules["SKIP"] = Rule("SKIP", expr, SILENT_ATOMIC)
+                rules["SKIP"] = SkipRule("SKIP", expr, SILENT_ATOMIC)
 
     def _run_once(
         self,
